@@ -84,3 +84,13 @@ Require Copia.Proofs.TieScan.
 Theorem C01_scan_is_translation_of_source : TieScan.scan_model_is_translation.
 Proof. exact TieScan.scan_model_is_translation_holds. Qed.
 Print Assumptions C01_scan_is_translation_of_source.
+
+(** The single-file local `copia sync SRC DST` is the translation of async_sync.rs `sync_files` as the source has it now
+    (no destination: the source is written; identical: untouched; else signature, the translated scan, the translated
+    patch, the output written beside the destination and renamed over it), and under the premises of the round-trip
+    theorem the destination holds exactly the source afterwards and the call succeeds (Gen/SyncFilesGen.v,
+    Proofs/TieSyncFiles.v). *)
+Require Copia.Proofs.TieSyncFiles.
+Theorem C01_sync_files_is_translation_of_source_and_delivers : TieSyncFiles.sync_files_is_translation.
+Proof. exact TieSyncFiles.sync_files_is_translation_holds. Qed.
+Print Assumptions C01_sync_files_is_translation_of_source_and_delivers.
